@@ -1124,14 +1124,15 @@ func TestVerifC06(t *testing.T) {
 			}
 		}
 	}
-	// stress: concurrent hostile hosts against one Service (once in the quick tier)
+	// stress: concurrent hostile hosts against one Service (once in the quick tier, with a registry, so
+	// that a crash is not confused with the missing-counters defect that the classes above cover)
 	stress := 1
 	dur := 2500
 	if full {
 		stress, dur = 4, 8000
 	}
 	for k := 0; k < stress; k++ {
-		run("e2e-stress", c06In{Pkg: c06Pkg, Entry: "e2e-stress", Registry: k%2 == 1, Seed: r.Int63(), DurMs: dur, Hammers: 3, Streamers: 3})
+		run("e2e-stress", c06In{Pkg: c06Pkg, Entry: "e2e-stress", Registry: k%2 == 0, Seed: r.Int63(), DurMs: dur, Hammers: 3, Streamers: 3})
 	}
 	flush()
 }
